@@ -1,5 +1,6 @@
 import MJ.Model.Cmp
 import MJ.Model.Coll
+import MJ.Model.CollV
 /-! Line driver for C07.
 
 usage: `drive_c07 <btree|index>`; stdin lines (anything after a TAB is ignored):
@@ -12,7 +13,7 @@ usage: `drive_c07 <btree|index>`; stdin lines (anything after a TAB is ignored):
 * `lk vm <n> <key> <probe>`      answers `get=<0|1> attr=<0|1|->[ h]`: `get_value(probe)` and, for a string
                                   probe, `get_value_by_str(probe)` on the `n`-entry map holding `key`
 -/
-open MJ MJ.Val MJ.Cmp MJ.Coll
+open MJ MJ.Val MJ.Cmp MJ.Coll MJ.CollV
 
 namespace C07Drive
 
@@ -32,6 +33,7 @@ def isAtomEnd (c : Char) : Bool := c == ',' || c == ':' || c == ']' || c == '}' 
 def atomOf (s : String) : Option V :=
   match s.splitOn "." with
   | ["u"] => some .undef
+  | ["us"] => some .undef
   | ["n"] => some .none
   | ["t"] => some (.bool true)
   | ["f"] => some (.bool false)
@@ -49,10 +51,13 @@ def atomOf (s : String) : Option V :=
 
 mutual
 partial def parseV (m : Mode) : List Char → Option (V × List Char)
+  | '[' :: '=' :: rest => (parseItems m ']' rest).map fun (xs, r) => (.seq xs, r)
   | '[' :: rest => (parseItems m ']' rest).map fun (xs, r) => (.seq xs, r)
   | '(' :: rest => (parseItems m ')' rest).map fun (xs, r) => (.tuple xs, r)
   | '<' :: '?' :: rest => (parseItems m '>' rest).map fun (xs, r) => (.iter xs, r)
+  | '<' :: '!' :: rest => (parseItems m '>' rest).map fun (xs, r) => (.iter xs, r)
   | '<' :: rest => (parseItems m '>' rest).map fun (xs, r) => (.iter xs, r)
+  | '{' :: '=' :: rest => (parsePairs m rest).map fun (ps, r) => (.map ps, r)
   | '{' :: rest => (parsePairs m rest).map fun (ps, r) => (mkMap m ps, r)
   | cs =>
     let a := cs.takeWhile (fun c => !isAtomEnd c)
@@ -124,26 +129,169 @@ def runFilter (which : String) (len : Nat) (count : Nat) (fill : Bool) : String 
     let f : Option Int := if fill then some (-1) else none
     if which = "batch" then showRuns (batch xs count f) else showRuns (slicef xs count f)
 
-def handle (m : Mode) (zoo : Array V) (line : String) : Array V × String :=
+
+/-- structural equality (used to name alphabet letters) -/
+partial def beqV : V → V → Bool
+  | .undef, .undef => true
+  | .none, .none => true
+  | .bool a, .bool b => a == b
+  | .num a, .num b => a == b
+  | .str a, .str b => a == b
+  | .bytes a, .bytes b => a == b
+  | .plain a, .plain b => a == b
+  | .seq a, .seq b => a.length == b.length && (a.zip b).all fun (x, y) => beqV x y
+  | .tuple a, .tuple b => a.length == b.length && (a.zip b).all fun (x, y) => beqV x y
+  | .iter a, .iter b => a.length == b.length && (a.zip b).all fun (x, y) => beqV x y
+  | .map a, .map b => a.length == b.length && (a.zip b).all fun (p, q) => beqV p.1 q.1 && beqV p.2 q.2
+  | _, _ => false
+
+def letters : List Char := "0123456789abc".toList
+
+structure Al where
+  vals : Array V := #[]
+
+def Al.get (al : Al) (c : Char) : V :=
+  match letters.idxOf? c with
+  | some i => al.vals[i]!
+  | none => .undef
+
+def Al.letter (al : Al) (v : V) : String :=
+  match (List.range al.vals.size).find? (fun i => beqV al.vals[i]! v) with
+  | some i => String.singleton (letters[i]!)
+  | none => "?"
+
+def strK : List Nat := [107]          -- "k"
+def strId : List Nat := [105, 100]    -- "id"
+
+def wrapItem (m : Mode) (v : V) (idx : Nat) : V := mkMap m [(.str strK, v), (.str strId, .num (.u64 idx))]
+def bareItem (m : Mode) (idx : Nat) : V := mkMap m [(.str strId, .num (.u64 idx))]
+
+def idOf (m : Mode) (v : V) : String :=
+  match attrOr m strId .undef v with
+  | .num (.u64 n) => toString n
+  | _ => "?"
+
+def showItems (m : Mode) (al : Al) (wrap : Bool) (vs : List V) : String :=
+  if wrap then ".".intercalate (vs.map (idOf m)) else String.join (vs.map al.letter)
+
+def itemsOf (m : Mode) (al : Al) (word : String) (wrap : Bool) : List V :=
+  (word.toList.zipIdx).map fun (c, i) => if wrap then wrapItem m (al.get c) i else al.get c
+
+def testOf (s : String) : Test :=
+  match s with
+  | "eq" => .eq | "ne" => .ne | "lt" => .lt | "le" => .le | "gt" => .gt | "ge" => .ge | _ => .isIn
+
+def showNum : V → String
+  | .num (.u64 n) => toString n
+  | .num (.i64 n) => toString n
+  | _ => "?"
+
+def runFv (m : Mode) (al : Al) (f : List String) : String :=
+  let b := fun (x : String) => x == "1"
+  let w := fun (x : String) => if x == "-" then "" else x
+  match f with
+  | ["sort", cs, rev, form, word] =>
+    let wrap := form == "wrap"
+    "ok:" ++ showItems m al wrap (sortV m (b cs) (b rev) (if wrap then some strK else none) (itemsOf m al (w word) wrap))
+  | ["unique", cs, form, word] =>
+    let wrap := form == "wrap"
+    "ok:" ++ showItems m al wrap (uniqueV m lowerAscii (b cs) (if wrap then some strK else none) (itemsOf m al (w word) wrap))
+  | ["groupby", cs, d, word] =>
+    let dflt := if d == "-" then V.undef else al.get d.toList.head!
+    let items := ((w word).toList.zipIdx).map fun (c, i) => if i % 3 == 2 then bareItem m i else wrapItem m (al.get c) i
+    let gs := groupbyV m (b cs) strK dflt items
+    "ok:" ++ ";".intercalate (gs.map fun (g, xs) =>
+      (match g with | .undef => "u" | _ => al.letter g) ++ ":" ++ showItems m al true xs)
+  | ["dictsort", cs, rev, bv, word] =>
+    let n := (w word).length
+    let pairs := ((w word).toList.zipIdx).map fun (c, i) => (al.get c, V.num (.u64 ((n - i) % 3)))
+    match mkMap m pairs with
+    | .map ps =>
+      "ok:" ++ ",".intercalate ((dictsortV (b cs) (b rev) (b bv) ps).map fun (k, v) => al.letter k ++ "=" ++ showNum v)
+    | _ => "bad-case"
+  | ["sel", t, inv, form, word, arg] =>
+    let wrap := form == "wrap"
+    "ok:" ++ showItems m al wrap (selectV m (b inv) (if wrap then some strK else none) (testOf t) (al.get arg.toList.head!) (itemsOf m al (w word) wrap))
+  | ["min", word] =>
+    match minBy cmpV (itemsOf m al (w word) false) with
+    | some v => "ok:" ++ al.letter v
+    | none => "ok:u"
+  | ["max", word] =>
+    match maxBy cmpV (itemsOf m al (w word) false) with
+    | some v => "ok:" ++ al.letter v
+    | none => "ok:u"
+  | ["cin", kind, word, arg] =>
+    let items := itemsOf m al (w word) false
+    let x := al.get arg.toList.head!
+    let one : V := .num (.i64 1)
+    let r : Option Bool :=
+      match kind with
+      | "seq" => containsV m (.seq items) x
+      | "oseq" => containsV m (.seq items) x
+      | "tuple" => containsV m (.tuple items) x
+      | "iter" => containsV m (.iter items) x
+      | "once" => containsV m (.iter items) x
+      | "map" => containsV m (mkMap m (items.map fun k => (k, one))) x
+      -- the harness's user map object looks keys up with `==` (stored key on the left)
+      | _ => some (items.any fun k => eqV m k x)
+    match r with
+    | some true => "1"
+    | some false => "0"
+    | none => "e"
+  | ["lit", word] =>
+    let pairs := ((w word).toList.zipIdx).map fun (c, i) => (al.get c, V.num (.i64 i))
+    "ok:" ++ ",".intercalate ((mapLit m pairs).map fun (k, v) => al.letter k ++ "=" ++ showNum v)
+  | _ => "bad-case"
+
+structure St where
+  zoo : Array (Option V) := #[]
+  rzoo : Array (Option V) := #[]
+  al : Al := {}
+
+def valAnswer (m : Mode) (tag i : String) (ov : Option V) : String :=
+  match ov with
+  | some v =>
+    let len := match v with
+      | .map ps => toString ps.length
+      | _ => "-"
+    s!"{tag} {i}\t{v.kindName} len={len} selfeq={if eqV m v v then 1 else 0} selfcmp={ordChar (cmpV v v)}"
+  | none => s!"{tag} {i}\tnomodel"
+
+def pairAnswer (m : Mode) (case : String) (oa ob : Option V) : String :=
+  match oa, ob with
+  | some a, some b =>
+    let h := if hashBytes a == hashBytes b then 1 else 0
+    let dep := if m == .index && (hashDep a b) then " h" else ""
+    s!"{case}\t{ordChar (cmpV a b)} {if eqV m a b then 1 else 0} {h}{dep}"
+  | _, _ => s!"{case}\tnomodel"
+
+def handle (m : Mode) (st : St) (line : String) : St × String :=
   let case := (line.splitOn "\t").head!
   match case.trimAscii.toString.splitOn " " with
   | ["val", i, enc] =>
-    match parseV m enc.toList with
-    | some (v, []) =>
-      let len := match v with
-        | .map ps => toString ps.length
-        | _ => "-"
-      (zoo.push v, s!"val {i}\t{v.kindName} len={len} selfeq={if eqV m v v then 1 else 0} selfcmp={ordChar (cmpV v v)}")
-    | _ => (zoo.push .undef, s!"val {i}\tbad-case")
+    let ov := match parseV m enc.toList with
+      | some (v, []) => some v
+      | _ => none
+    ({ st with zoo := st.zoo.push ov }, valAnswer m "val" i ov)
   | ["pair", i, j] =>
     match i.toNat?, j.toNat? with
-    | some i', some j' =>
-      let a := zoo[i']!
-      let b := zoo[j']!
-      let h := if hashBytes a == hashBytes b then 1 else 0
-      let dep := if m == .index && (hashDep a b) then " h" else ""
-      (zoo, s!"pair {i} {j}\t{ordChar (cmpV a b)} {if eqV m a b then 1 else 0} {h}{dep}")
-    | _, _ => (zoo, s!"{case}\tbad-case")
+    | some i', some j' => (st, pairAnswer m case (st.zoo[i']!) (st.zoo[j']!))
+    | _, _ => (st, s!"{case}\tbad-case")
+  | ["rval", b, i, enc] =>
+    let ov := match parseV m enc.toList with
+      | some (v, []) => some v
+      | _ => none
+    let rz := if i == "0" then #[ov] else st.rzoo.push ov
+    ({ st with rzoo := rz }, valAnswer m s!"rval {b}" i ov)
+  | ["rpair", _b, i, j] =>
+    match i.toNat?, j.toNat? with
+    | some i', some j' => (st, pairAnswer m case (st.rzoo[i']!) (st.rzoo[j']!))
+    | _, _ => (st, s!"{case}\tbad-case")
+  | ["fa", _l, enc] =>
+    match parseV m enc.toList with
+    | some (v, []) => ({ st with al := { vals := st.al.vals.push v } }, s!"{case}\tok")
+    | _ => (st, s!"{case}\tbad-case")
+  | "fv" :: rest => (st, s!"{case}\t{runFv m st.al rest}")
   | ["lk", _backing, n, kenc, penc] =>
     match n.toNat?, parseV m kenc.toList, parseV m penc.toList with
     | some n, some (k, []), some (p, []) =>
@@ -162,24 +310,24 @@ def handle (m : Mode) (zoo : Array V) (line : String) : Array V × String :=
         -- depending on the table layout
         let dep := if m == .index && ps.length ≠ 1 &&
             ps.any (fun q => eqV .index p q.1 && hashBytes p != hashBytes q.1) then " h" else ""
-        (zoo, s!"{case}\tget={isM (getV m ps p)} attr={attr}{dep}")
-      | _ => (zoo, s!"{case}\tbad-case")
-    | _, _, _ => (zoo, s!"{case}\tbad-case")
+        (st, s!"{case}\tget={isM (getV m ps p)} attr={attr}{dep}")
+      | _ => (st, s!"{case}\tbad-case")
+    | _, _, _ => (st, s!"{case}\tbad-case")
   | [which, len, count, fill] =>
     match len.toNat?, count.toNat? with
-    | some len, some count => (zoo, s!"{case}\t{runFilter which len count (fill == "1")}")
-    | _, _ => (zoo, s!"{case}\tbad-case")
-  | _ => (zoo, s!"{case}\tbad-case")
+    | some len, some count => (st, s!"{case}\t{runFilter which len count (fill == "1")}")
+    | _, _ => (st, s!"{case}\tbad-case")
+  | _ => (st, s!"{case}\tbad-case")
 
-partial def loop (m : Mode) (zoo : Array V) (h : IO.FS.Stream) (out : IO.FS.Stream) : IO Unit := do
+partial def loop (m : Mode) (st : St) (h : IO.FS.Stream) (out : IO.FS.Stream) : IO Unit := do
   let line ← h.getLine
   if line.isEmpty then return ()
-  let (zoo', res) := handle m zoo (line.dropEndWhile (· == '\n')).toString
+  let (st', res) := handle m st (line.dropEndWhile (· == '\n')).toString
   out.putStrLn res
-  loop m zoo' h out
+  loop m st' h out
 
 end C07Drive
 
 def main (args : List String) : IO Unit := do
   let m : Mode := if args.head? == some "index" then .index else .btree
-  C07Drive.loop m #[] (← IO.getStdin) (← IO.getStdout)
+  C07Drive.loop m {} (← IO.getStdin) (← IO.getStdout)
